@@ -177,7 +177,8 @@ OnFiles(e) ==
         v7 == IF ~e.query_ok THEN v6 \cup {"QueriesReturnRightColumns"} ELSE v6
         v8 == IF e.files_exist /\ e.n_file # e.n_expected THEN v7 \cup {"FileHasOneRowPerKeptStep"} ELSE v7
         v9 == IF ~e.replay_ok THEN v8 \cup {"ReplayFromCsvReproduces"} ELSE v8
-    IN [s EXCEPT !.viol = v9]
+        v10 == IF ~e.memplot_ok THEN v9 \cup {"InMemoryPlotterShowsTheRun"} ELSE v9
+    IN [s EXCEPT !.viol = v10]
 
 (* C09: limiters observed at every stored instant of the run *)
 OnLimits(e) ==
